@@ -31,7 +31,8 @@ P["C01"] = dict(
              "R-PARITY: (parity abstract interpretation) under reflection in the equator the cart operator's inverse and Ellipsoid::geographic give longitude and height even and latitude odd in Z on every branch; Ellipsoid::cartesian gives X, Y even and Z odd in the latitude; the auxiliary latitudes are odd, the radii of curvature and the normal gravity formulas even in the latitude",
              "R-LAT-ARG-KIND: what the operators hand to an auxiliary-latitude conversion is an angle (a coordinate, a parameter, the result of an inverse trigonometric function, or a sum / scalar multiple of such), never a bare ratio such as the sine of the authalic latitude",
              "R-MODE-FLAG-USED: every mode or aspect flag a constructor itself records (laea north_polar/south_polar/oblique, helmert rotated/dynamic/fixed_time, null_grid ...) is consulted by the operator: a detected mode is a handled mode",
-             "R-RECTIFY-ROTATION: omerc forward and inverse use a rotation and its reverse between skew and rectified coordinates"],
+             "R-RECTIFY-ROTATION: omerc forward and inverse use a rotation and its reverse between skew and rectified coordinates",
+             "R-NO-LAT-SHIFT: in the transverse Mercator family lat_0 is never added to a latitude read or written (it enters through the meridian arc as the origin of the northings)"],
     not_decided=["numerical round-trip accuracy of any operator", "domain limits", "grid based shifts"],
     level="Decides structural clauses that are necessary conditions of 'inverse undoes forward' (see decides); does "
           "not decide the numerical round-trip accuracy of any operator.",
@@ -48,7 +49,9 @@ P["C05"] = dict(
              "R-PARAM-MIRROR: forward and inverse of each projection depend on the same parameters (same ellipsoid in both directions)",
              "R-LAT-ARG-KIND: what the operators hand to an auxiliary-latitude conversion is an angle (a coordinate, a parameter, the result of an inverse trigonometric function, or a sum / scalar multiple of such), never a bare ratio such as the sine of the authalic latitude",
              "R-MODE-FLAG-USED: every mode or aspect flag a constructor itself records (laea north_polar/south_polar/oblique, helmert rotated/dynamic/fixed_time, null_grid ...) is consulted by the operator: a detected mode is a handled mode",
-             "R-RECTIFY-ROTATION: the step between skew (u, v) and rectified coordinates of omerc is a rotation through gamma_c in both directions (orthogonal rows of equal length as polynomials in sin/cos gamma_c)"],
+             "R-RECTIFY-ROTATION: the step between skew (u, v) and rectified coordinates of omerc is a rotation through gamma_c in both directions (orthogonal rows of equal length as polynomials in sin/cos gamma_c)",
+             "R-LATTS-K0: the k_0 that merc derives from lat_ts replaces a given k_0 (depends on lat_ts and the ellipsoid only)",
+             "R-DEFAULTED-FIELD: no struct completed with ..Default::default() leaves a field to the default for which the building function has a like-named parameter (Jacobian keeps the caller's ellipsoid)"],
     not_decided=["conformality, equal-area and true-scale identities (differential statements over R^2)"],
     level="Decides two necessary table identities of the transverse Mercator geometry; the differential geometry "
           "of the projections is not decidable statically and is not claimed.",
@@ -319,7 +322,9 @@ P["C13"] = dict(
              "or through a key its constructor derives from it - no declared parameter is silently ignored",
              "R-DIMENSION: (units-of-measure inference) every addition, subtraction and comparison in the ellipsoid geometry and in the operators with documented tuple conventions joins quantities of one physical dimension, transcendental functions get dimensionless arguments, and written tuple elements have the documented dimension (length / angle / time)",
              "R-KEY-DECLARED: every parameter an operator reads is declared in its gamut under the documented name (utm accepts ellps, ...)",
-             "R-MODE-FLAG-USED: every mode or aspect flag a constructor itself records (laea north_polar/south_polar/oblique, helmert rotated/dynamic/fixed_time, null_grid ...) is consulted by the operator: a detected mode is a handled mode"],
+             "R-MODE-FLAG-USED: every mode or aspect flag a constructor itself records (laea north_polar/south_polar/oblique, helmert rotated/dynamic/fixed_time, null_grid ...) is consulted by the operator: a detected mode is a handled mode",
+             "R-NO-LAT-SHIFT: in the transverse Mercator family lat_0 is never added to a latitude read or written (it enters through the meridian arc as the origin of the northings)",
+             "R-LATTS-K0: the k_0 that merc derives from lat_ts replaces a given k_0 (depends on lat_ts and the ellipsoid only)"],
     not_decided=["k_0 linearity", "lat_ts == corresponding k_0", "1SP == 2SP lcc", "merc == webmerc on a sphere",
                  "scaling with the semi-major axis"],
     level="Decides the unit, false-origin, UTM-constant and alias conventions structurally on all paths; the "
@@ -384,7 +389,8 @@ P["C14"] = dict(
              "R-PARITY: (parity abstract interpretation) under reflection in the equator the cart operator's inverse and Ellipsoid::geographic give longitude and height even and latitude odd in Z on every branch; Ellipsoid::cartesian gives X, Y even and Z odd in the latitude; the auxiliary latitudes are odd, the radii of curvature and the normal gravity formulas even in the latitude",
              "R-SIBLING-ELEMENTS: the five gravity formula helpers read latitude and height from the same tuple elements",
              "T-UNITS: unit factors equal the published values (unitconvert and adapt share the angular mappings exactly)",
-             "R-TUPLE-LOOP-COMPLETE: the per-tuple loops of the wrapper operators visit every tuple"],
+             "R-TUPLE-LOOP-COMPLETE: the per-tuple loops of the wrapper operators visit every tuple",
+             "R-NO-LAT-SHIFT: in the transverse Mercator family lat_0 is never added to a latitude read or written (it enters through the meridian arc as the origin of the northings)"],
     not_decided=["every numerical agreement listed in the statement (tmerc vs btmerc, cart vs geocart inverse, "
                  "series vs closed forms and quadrature)"],
     level="Decides wiring agreement between independent routes; numerical agreement is not decided.",
